@@ -559,6 +559,13 @@ func (c *client) lookupRegion(ctx context.Context,
 	var err error
 	backoff := backoffStart
 	for {
+		select {
+		case <-c.done:
+			// client has been closed, possibly while we were sleeping:
+			// the zookeeper lookups below wouldn't notice
+			return nil, "", ErrClientClosed
+		default:
+		}
 		// If it takes longer than regionLookupTimeout, fail so that we can sleep
 		lookupCtx, cancel := context.WithTimeout(ctx, c.regionLookupTimeout)
 		if c.clientType == region.MasterClient {
